@@ -39,6 +39,42 @@ T = {
          "set (W,H,b0), then set the same W,H with a larger binning, then start: the streamer renders b*W x b*H into the old buffer"),
  "C18": ("simcam_stop fires the software trigger only when triggering is enabled (removing the lock hand-off before notify(frame_ready))",
          "trigger disabled and a get_frame caller between its predicate check and its wait when stop clears is_running: it sleeps forever"),
+ "C01b": ("channel_read_unmap always copies the reader cursor's lap into the hold, and only the position depends on full/partial consumption",
+          "a partial release (consumed < mapped) of a region in the previous lap: the hold is relabelled with the new lap, the rest of the old lap is skipped"),
+ "C02b": ("next_write: the ring-full test is moved after the 'fits before the end of the buffer' case",
+          "ring exactly full (head == slowest tail, writer one lap ahead) with room before the end of the buffer: the writer is granted the reader's unread, possibly mapped bytes"),
+ "C03b": ("channel_read_unmap notifies the writer only when the releasing reader is (still) the slowest one",
+          "two readers, the releasing one overtakes the other while the writer is blocked on the space it just freed: no wake-up, the writer sleeps although it could proceed"),
+ "C04b": ("channel_read_unmap stores the hold lap before the full/partial decision (one line moved)",
+          "ring wrap while the sink holds the tail of the old lap, released partially because of a write delay: the remaining old-lap frames are never stored"),
+ "C05b": ("vfslice_split_at_delay_ms reads bytes_of_frame once from the first frame and steps by that constant",
+          "a packet with frames of different sizes (shape change mid-stream) and a non-zero write delay: the split point lands inside a frame"),
+ "C06b": ("channel_read_unmap: hold lap := reader lap unconditionally, position by a ternary",
+          "monitor client releases part of a region that ends the previous lap: its next map skips / repeats frames"),
+ "C07b": ("acquire_abort fires the camera's software trigger before it stores source.is_stopping and refuses writes",
+          "camera idle waiting for a trigger, abort pre-empted between the trigger and the flag store for longer than one frame: the source blocks in the next frame call, abort/stop/shutdown hang"),
+ "C08b": ("video_source_configure closes the old camera first and assigns self->camera only if the new open succeeds",
+          "re-configure to another camera whose open fails: the stale handle is used and later closed a second time"),
+ "C09b": ("video_source_start sets is_running = 1 after thread_create",
+          "the worker hits a camera failure and finishes before the starter stores the flag: the runtime reports Running for ever"),
+ "C10b": ("the averaging window state (accumulator, frame_count) moves from locals of the filter thread into struct video_filter_s, reset only by configure",
+          "an acquisition ends with an incomplete window, the next start follows without configure: the first frames are summed into the previous run's committed frame and every window is shifted"),
+ "C11b": ("driver_open_device closes the device itself when describe() fails but leaves *out set; camera_open's error path closes it again",
+          "a driver whose open() succeeds and describe() fails: two closes of one device, the second after it was released"),
+ "C12b": ("DeviceManagerV0::get_driver becomes noexcept and keeps calling drivers_.at()",
+          "an identifier with driver_id >= number of slots: std::terminate instead of an error status"),
+ "C13b": ("copy_string: memset + memcpy(strnlen(src, nbytes)) instead of memcpy(nbytes) + forced terminator",
+          "a source string whose nbytes holds no NUL: the stored string is not NUL-terminated within its recorded length, and copies inherit it"),
+ "C14b": ("raw_set returns Armed early when already Armed and strncmp(stored uri, new name, nbytes - 1) == 0 (a prefix test)",
+          "re-configure to a path that is a proper prefix of the current one: the new name is ignored, the next acquisition overwrites the earlier file"),
+ "C15b": ("Tiff::terminate_ifd_list skips the terminator write when the last link offset equals the one it zeroed last time (never reset in start)",
+          "two consecutive acquisitions whose last directory lands at the same offset: the second file's chain is not terminated"),
+ "C16b": ("Tiff::stop leaves the state to its caller and side_by_side_tiff_append no longer stores the inner writer's append result",
+          "tiff-json running, a pwrite from append fails: the inner writer closes its descriptor but stays Running, the wrapper stops it again: write to and close of a descriptor it no longer owns"),
+ "C17b": ("simcam_set skips the buffer re-sizing when reported pixel type, width and height are unchanged (is_same_layout)",
+          "same accepted shape, larger binning, then start: the full-resolution render overruns both buffers"),
+ "C18b": ("simcam_get_frame replaces 'record id; if (!is_running) goto Shutdown' by 'if (last >= id) goto Shutdown; record id'",
+          "trigger enabled, a frame call pending when stop arrives and re-acquiring the lock after the streamer published the frame stop forces out: a frame no trigger asked for is delivered"),
 }
 mx = {}
 mp = os.path.join(V, "seeded", "matrix.json")
@@ -55,7 +91,7 @@ for pid, (what, needs) in sorted(T.items()):
     caught = {c: v["rules"] for c, v in mx.get("seeded/%s/patch.diff" % pid, {}).items()
               if isinstance(v, dict) and v.get("rc") == 1}
     meta = {
-        "breaks_property": pid,
+        "breaks_property": pid[:3],
         "change": what,
         "needs_to_manifest": needs,
         "origin": "written by an independent sub-agent that saw only the property text and a scratch worktree of /repo (nothing from /verif)",
